@@ -25,7 +25,7 @@ PAIR2 = re.compile(r'^\(?(\d+),(\d+)\)?$')
 
 def _int(x, what):
     if x is None:
-        raise HarnessError('unbounded variable/coefficient in %s' % what)
+        raise Unenumerable('unbounded variable/coefficient in %s' % what)
     r = round(x)
     if abs(x - r) > 1e-9:
         raise HarnessError('non-integral datum %r in %s' % (x, what))
@@ -35,6 +35,10 @@ def _int(x, what):
 def _pair(name):
     m = PAIR2.match(name)
     return (int(m.group(1)), int(m.group(2))) if m else None
+
+
+class Unenumerable(HarnessError):
+    pass
 
 
 class SolveRecord(object):
@@ -69,7 +73,7 @@ def extract(lp):
     hi = [_int(v.upBound, v.name) for v in vs]
     for v in vs:
         if v.cat not in (constants.LpInteger, 'Binary') and v.lowBound != v.upBound:
-            raise HarnessError('continuous variable %s' % v.name)
+            raise Unenumerable('continuous variable %s' % v.name)
     cons = []
     for n, c in lp.constraints.items():
         terms = [(idx[id(v)], _int(a, n)) for v, a in c.items() if a != 0]
@@ -229,6 +233,7 @@ class Backend(object):
         self.aux_order = aux_order or ('hi' if self.salt % 2 else 'lo')
         self.keep_sets = keep_sets
         self.records = []
+        self.fell_back = False
         self.last = None
         self.hook = hook         # hook(backend, lp, record) -> None, called after each solve
         self._orig = None
@@ -280,7 +285,20 @@ class Backend(object):
             from pulp import PulpSolverError
             raise PulpSolverError('Pulp: Error while executing (duplicated variable names %r)'
                                   % sorted(n for n in set(names) if names.count(n) > 1))
-        vs, nproj, res, sign = solve_all(lp, aux_order=self.aux_order)
+        try:
+            vs, nproj, res, sign = solve_all(lp, aux_order=self.aux_order)
+        except Unenumerable:
+            # not a bounded pure-integer program (e.g. a variable lost its category): the
+            # exact enumeration does not apply; let the real solver answer this one
+            coin_api.COIN_CMD.actualSolve(solver_self, lp, **kwargs)
+            rec.status = constants.LpStatus[lp.status]
+            rec.objective = None
+            self.fell_back = True
+            self.last = None
+            self.records.append(rec)
+            if self.hook:
+                self.hook(self, lp, rec)
+            return lp.status
         self.last = (vs, res)
         rec.pairs = [_pair(v.name) for v in vs[:nproj]]
         rec.nF = len(res)
